@@ -220,14 +220,17 @@ func truncateString(s string, maxLen int, pos int) string {
 		pos0 = len(s) - 1
 	}
 
+	// Cuts are moved forward to the next character boundary so that a multi-byte
+	// character is never shown in part (calculateDisplayColumn does the same)
+
 	// If position fits in the first part, truncate from end
 	if pos0 < maxLen-3 {
-		return s[:maxLen-3] + "..."
+		return s[:nextCharBoundary(s, maxLen-3)] + "..."
 	}
 
 	// If position is near the end, truncate from beginning
 	if pos0 >= len(s)-maxLen+3 {
-		return "..." + s[len(s)-maxLen+3:]
+		return "..." + s[nextCharBoundary(s, len(s)-maxLen+3):]
 	}
 
 	// Position is in the middle, truncate from both sides
@@ -245,7 +248,15 @@ func truncateString(s string, maxLen int, pos int) string {
 		end = len(s)
 	}
 
-	return "..." + s[start:end] + "..."
+	return "..." + s[nextCharBoundary(s, start):nextCharBoundary(s, end)] + "..."
+}
+
+// nextCharBoundary returns the first index >= i at which a character starts (or len(s))
+func nextCharBoundary(s string, i int) int {
+	for i < len(s) && isContinuationByte(s[i]) {
+		i++
+	}
+	return i
 }
 
 // calculateDisplayColumn calculates the column position in the truncated string
@@ -271,10 +282,12 @@ func calculateDisplayColumn(originalLine string, originalPos, maxLen int) int {
 
 	// If position is near end
 	if pos0 >= len(originalLine)-maxLen+3 {
-		return 4 + (pos0 - (len(originalLine) - maxLen + 3)) // 4 for "..."
+		start := nextCharBoundary(originalLine, len(originalLine)-maxLen+3)
+		return 4 + (pos0 - start) // 4 for "..."
 	}
 
 	// Position is in middle
 	before := (maxLen - 3) / 2
-	return 4 + before // 4 for "..." + position in middle section
+	start := nextCharBoundary(originalLine, pos0-before)
+	return 4 + (pos0 - start) // 4 for "..." + position in middle section
 }
